@@ -446,6 +446,11 @@ class HTTP(BaseComponent):
         else:
             return
 
+        if req.handled:
+            # request_failure has answered this request already
+            return
+        req.handled = True
+
         code = evalue.code if isinstance(evalue, HTTPException) else None
 
         self.fire(httperror(req, res, code=code, error=(etype, evalue, etraceback)))
